@@ -676,6 +676,7 @@ class Interp:
         if isinstance(node, ast.Lambda):
             return self.eval(node.body, env, fv.module)
         env.vars["__class_cell__"] = getattr(fv, "owner_class", None)
+        env.vars["__funcqual__"] = fv.qualname
         env.vars["__locals_declared__"] = _assigned_names(node)
         try:
             self.exec_block(node.body, env, fv.module)
